@@ -128,7 +128,7 @@ def size(spec):
 def _scale_kind(key):
     if key == "v":
         return "add", 10.0
-    if key in ("HH_m", "IonotropicSynapse_s"):
+    if key in ("HH_m", "IonotropicSynapse_s", "TestSynapse_c"):
         return "add", 0.1
     return "mul", 1.0
 
